@@ -305,7 +305,7 @@ def run(ctx):
         n += len(w["hist"])
     ctx.extra["cover_walks_replayed"] = len(used)
     ctx.extra["cover_walks_total"] = len(cov)
-    behaviours = [b for b in behaviours if b["kind"] == "cex"] + used + tl[: (800 if q else 15000)]
+    behaviours = [b for b in behaviours if b["kind"] == "cex"] + used + tl[: (800 if q else 30000)]
     ind = os.path.join(ctx.work, "in-c12")
     os.makedirs(ind)
     json.dump(behaviours, open(os.path.join(ind, "behaviours.json"), "w"))
@@ -325,7 +325,7 @@ def run(ctx):
     if q:
         env.update({"VERIF_BYTES": 250, "VERIF_OPS": 400, "VERIF_DEEP": 150, "VERIF_LIMIT_ROUNDS": 1, "VERIF_STATIC": 1})
     else:
-        env.update({"VERIF_BYTES": 5000, "VERIF_OPS": 8000, "VERIF_DEEP": 2500, "VERIF_LIMIT_ROUNDS": 4, "VERIF_STATIC": 6})
+        env.update({"VERIF_BYTES": 8000, "VERIF_OPS": 16000, "VERIF_DEEP": 6000, "VERIF_LIMIT_ROUNDS": 6, "VERIF_STATIC": 6})
     res = ctx.go_driver("c12vm", "TestDriver", env=env, timeout=3000)
     ctx.absorb(res)
     st = res.get("stats") or {}
